@@ -32,10 +32,12 @@ ASSUMPTIONS = ['a formula operand is true when the process is STARTING/BACKOFF/R
                '"no exception, no side effect"']
 FLOORS = {'quick': {'definition_comparisons': 20000, 'valid_formula_comparisons': 10000,
                     'hostile_formula_evaluations': 10000, 'audit_events_seen': 10000,
-                    'nomatch_formula_evaluations': 5000},
+                    'nomatch_formula_evaluations': 5000, 'reported_applications_compared': 500,
+                    'reported_failures_compared': 400},
           'thorough': {'definition_comparisons': 500000, 'valid_formula_comparisons': 250000,
                        'hostile_formula_evaluations': 250000, 'audit_events_seen': 250000,
-                       'nomatch_formula_evaluations': 100000}}
+                       'nomatch_formula_evaluations': 100000, 'reported_applications_compared': 9000,
+                       'reported_failures_compared': 7000}}
 ROUNDS = {'quick': 4000, 'thorough': 40000}
 CASES = {'quick': 32, 'thorough': 64}
 
@@ -97,8 +99,98 @@ class Audit:
 AUDIT = None
 
 
+# a second family on L3: in clusters of real instances (application activity, kills, instance losses and restarts,
+# run-time configuration changes) the application state / failures that EACH instance reports at quiescence are
+# compared with the definition applied to the process states that the SAME instance reports at that instant
+L3_KNOBS = {'n_min': 2, 'n_max': 4,
+            'apps': {'n_apps': (1, 3), 'n_progs': (1, 4), 'seq_max': 2, 'startsecs': (0, 3), 'max_numprocs': 3,
+                     'per_instance_diff': 0.1, 'managed_p': 0.8, 'autorestart': ('false',)},
+            'behaviours': ['normal'] * 5 + ['slow_stop', 'crash_early', 'exit_unexpected', 'exit_expected', 'no_file'],
+            'actions': ['start_application', 'stop_application', 'restart_application', 'start_process', 'stop_process',
+                        'kill_process', 'kill_process', 'crash', 'restart', 'burst', 'update_numprocs',
+                        'update_numprocs', 'remove_group', 'add_group', 'disable'],
+            'n_actions': [2, 3, 4, 6, 8], 'early_p': 0.2, 'fence': 'false'}
+L3_COUNT = {'quick': 240, 'thorough': 4000}
+
+
 def plan(tier, seed):
-    return [{'seed': seed * 104729 + i, 'rounds': ROUNDS[tier]} for i in range(CASES[tier])]
+    return [{'seed': seed * 104729 + i, 'rounds': ROUNDS[tier]} for i in range(CASES[tier])] + \
+        [{'seed': seed * 1000003 + 700000 + i, 'family': 'reported'} for i in range(L3_COUNT[tier])]
+
+
+class ReportedViewMonitor:
+    """ L3: what an instance reports for an application = the definition over what it reports for its processes. """
+
+    def __init__(self):
+        self.violations, self.counters = [], {}
+
+    def attach(self, run):
+        self.run = run
+
+    def on_livelock(self, run, exc):
+        pass
+
+    def count(self, name, n=1):
+        self.counters[name] = self.counters.get(name, 0) + n
+
+    def finish(self, run):
+        from vsim.cluster import peek, views, Fault, TICK, vt
+        w = run.world
+        if not w.quiescent():
+            w.run_for(3 * TICK)
+        if not w.quiescent():
+            self.count('reported_not_quiescent')
+            return self.violations
+        vws = views(w)
+        for nick, view in vws.items():
+            if view['state'] not in ('OPERATION', 'CONCILIATION'):
+                continue
+            try:
+                apps = peek(w, nick, 'supvisors.get_all_applications_info')
+                procs = peek(w, nick, 'supvisors.get_all_process_info')
+            except Fault:
+                continue
+            for app in apps:
+                name = app['application_name']
+                model = run.model.get(name)
+                if model is None or model.get('operational_status'):
+                    continue
+                mine = [p for p in procs if p['application_name'] == name]
+                if not mine:
+                    continue
+                displayed = [p['statecode'] for p in mine]
+                expected_state = ref_state(displayed)
+                self.count('reported_applications_compared')
+                if app['statename'] != expected_state:
+                    self.violations.append({'key': 'C15/reported:state',
+                                            'msg': f'{nick} reports application {name} {app["statename"]} at quiescence '
+                                                   f'(vt={vt(w)}) while it reports its processes '
+                                                   f'{[(p["process_name"], p["statename"]) for p in mine]}: the '
+                                                   f'definition gives {expected_state}',
+                                            'detail': {'case': run.describe()}})
+                    continue
+                # failures, from the required flags of the rules model (managed applications without formula)
+                if not model['managed']:
+                    continue
+                flags = {}
+                for p in mine:
+                    prog = run.procs.get(f'{name}:{p["process_name"]}')
+                    required = bool(prog and model['programs'][prog[1]].get('required_eff'))
+                    flags[p['process_name']] = (p['statecode'], p['expected_exit'], required)
+                any_req = any(failed(s, e) and r for s, e, r in flags.values())
+                any_opt = any(failed(s, e) and not r for s, e, r in flags.values())
+                exp_major = any_req or (expected_state != 'STOPPED' and
+                                        any(s == STOPPED and r for s, e, r in flags.values()))
+                exp_minor = any_opt and not exp_major
+                self.count('reported_failures_compared')
+                if app['major_failure'] != exp_major or app['minor_failure'] != exp_minor:
+                    self.violations.append({'key': 'C15/reported:failure',
+                                            'msg': f'{nick} reports application {name} major={app["major_failure"]} '
+                                                   f'minor={app["minor_failure"]} at quiescence (vt={vt(w)}) while the '
+                                                   f'definition over what it reports for the processes (state, expected '
+                                                   f'exit, required) {flags} gives major={exp_major} minor={exp_minor}',
+                                            'detail': {'case': run.describe()}})
+        return self.violations
 
 
 def payload(state, now_mono, expected):
@@ -192,7 +284,23 @@ def snapshot(app):
                           {k: [p.process_name for p in v] for k, v in app.stop_sequence.items()})}
 
 
+def run_reported_case(case):
+    from workloads.apps import Run as AppsRun
+    mon = ReportedViewMonitor()
+    run = AppsRun(case, L3_KNOBS, [mon])
+    violations = run.execute()
+    counters = dict(mon.counters)
+    uniq = {}
+    for v in violations:
+        uniq.setdefault(v['key'], v)
+    return {'violations': list(uniq.values()), 'counters': counters,
+            'signature': ('r|' + run.shape()) if mon.counters.get('reported_applications_compared') else None,
+            'sample': None}
+
+
 def run_case(case):
+    if case.get('family') == 'reported':
+        return run_reported_case(case)
     global AUDIT
     from supvisors.application import ApplicationStatus, ApplicationRules
     from supvisors.process import ProcessStatus, ProcessRules
